@@ -274,7 +274,13 @@ def _get_path(grid, obj, paths):
     try:
         for i, path in enumerate(paths):
             obj = obj[path]
-            if i != len(paths)-1 and isinstance(obj, Ref):
+            if obj is None:
+                # A null cell is an absent tag
+                return NOT_FOUND
+            if i != len(paths)-1:
+                if not isinstance(obj, Ref):
+                    # Only a reference can be followed
+                    return NOT_FOUND
                 obj = grid[obj.name]  # Follow the reference
         return obj  # It's a value at this time
     except KeyError:
